@@ -10,6 +10,6 @@ patch -p1 --fuzz=3 --no-backup-if-mismatch < "$P" > "$W/patch.log" 2>&1 || { cat
 find . -name "*.orig" -delete; find . -name "*.rej" -print | grep . && { echo "REJECTS"; exit 1; }
 git diff > "$W/new.diff"
 [ -s "$W/new.diff" ] || { echo "empty diff"; exit 1; }
-cp "$P" "$P.pre-bc80d64"
+cp "$P" "$P.pre-$(git -C /repo rev-parse --short HEAD)"
 cp "$W/new.diff" "$P"
 echo "rebased $P ($(grep -c '^@@' "$P") hunks)"
